@@ -21,4 +21,11 @@ PROPS = {
         "assumptions": ["sets are what ParseGTIDSet produces (wf: distinct uuids, >=1 tag per uuid, non-empty normalized slices) - checked per case by wfb in the correspondence"],
         "theorem_status": {"all": "full: proved for all well-formed GTID sets / all non-empty position lists"},
     },
+    "C14": {
+        "corr": ["Corr/C14.vo"],
+        "harness": [{"pkg": APP, "test": "TestVerifC14"}],
+        "trusted": ["lags/bound are float64 seconds in Go and Z in the model: the harness generates integer values only (exact in float64); the Go recursion is modelled with fuel length+1 (C14_terminates proves it is never exhausted)"],
+        "assumptions": ["bound >= 0; GTID sets well-formed"],
+        "theorem_status": {"C14_top_has_max_priority_and_most_transactions": "the 'then with less lag' tie-break among candidates with EQUAL sets is checked by the correspondence only (needs completeness of Equal; see DESIGN.md)", "others": "full"},
+    },
 }
